@@ -5,7 +5,7 @@
 using namespace libcellml;
 
 // ---------------------------------------------------------------------------------- universe
-Universe::Universe()
+Universe::Universe(bool wide)
 {
     auto reg = [&](const std::string &n, const EntityPtr &e, const std::string &kind) {
         held[n] = e;
@@ -24,6 +24,9 @@ Universe::Universe()
     i = 0;
     for (auto n : {"v1", "v2", "v3"}) {
         reg(n, Variable::create(++i == 3 ? "b" : "a"), "var");
+    }
+    if (wide) {
+        reg("v4", Variable::create("a"), "var");
     }
     i = 0;
     for (auto n : {"u1", "u2", "u3"}) {
@@ -268,7 +271,7 @@ std::string Universe::apply(const J &c)
 
 static void objmodel(const J &sc, Emitter &out)
 {
-    Universe u;
+    Universe u(sc["wide"].boolean(false));
     for (auto &c : sc["cmds"].a) {
         std::string r = u.apply(c);
         J ev = J::obj();
